@@ -53,6 +53,8 @@ where
     where
         T: Eq + Hash + Clone,
     {
+        #[cfg(feature = "verif_hooks")]
+        use crate::verif_hooks::OrderMap as HashMap;
         let candidates_with_len_n = candidates
             .iter()
             .filter(|c| c.len() >= n)
